@@ -13,6 +13,7 @@ package main
 
 import (
 	"fmt"
+	"go/types"
 	"strings"
 
 	"golang.org/x/tools/go/ssa"
@@ -33,6 +34,16 @@ func ruleL27(p *Prog, r *Report) {
 			n++
 			cons := "band-predicate:" + tn + "." + pred
 			bad, und := "", ""
+			hasAnySize := false
+			if nt := p.LookupType(tn); nt != nil {
+				if st, ok := nt.Underlying().(*types.Struct); ok {
+					for i := 0; i < st.NumFields(); i++ {
+						if st.Field(i).Name() == "anySize" {
+							hasAnySize = true
+						}
+					}
+				}
+			}
 			for anySize := int64(0); anySize <= 1 && bad == "" && und == ""; anySize++ {
 				for s := int64(m - 3); s <= M+3 && bad == "" && und == ""; s++ {
 					if s > m+3 && s < M-3 {
@@ -58,7 +69,9 @@ func ruleL27(p *Prog, r *Report) {
 						und = ev.fail
 						break
 					}
-					exempt := readAny && anySize == 1
+					// a slab kind that has the size-unlimited flag (external collision groups) must honour it
+					_ = readAny
+					exempt := hasAnySize && anySize == 1
 					if pred == "IsFull" {
 						want := int64(0)
 						if s > M && !exempt {
